@@ -158,7 +158,7 @@ def main():
             "",
             "Definition gen_consider (c : sel_config) (u : uh_t) : bool :=\n  %s." % block(f_cons.body, "false"),
             ""])
-    except (Unsupported, OSError, SyntaxError) as e:
+    except Exception as e:  # noqa: BLE001 (fail-closed: whatever goes wrong gives the stub)
         # outside the fragment: only C07 depends on this file.  A stub keeps the other properties' builds going and makes
         # C07_source_is_model fail (proof obligation broken -> C07 reports it and searches for a failing input).
         sys.stderr.write("translate_select: %s\n" % e)
